@@ -7,9 +7,16 @@ QcC (vm_compute) and compared with ZERO tolerance against the hand-written Galli
 same outcome constructor, every array entry, every scalar.  The Marple routines are in addition compared, exactly, with the
 least-squares model of Model/Ls.v (coq/Model/LoopIRMarple.v), and their orders 0 and 1 are theorems (coq/Proofs/LoopIRMarple0.v).
 
-For LEVINSON, CORRELATION, levup, levdown, HERMTOEP and minvar_psi the equality `run program args = model` is in addition a THEOREM for
-all inputs (coq/Proofs/LoopIR<Name>.v, table THEOREMS below): it is instantiated in the generated file whenever the regenerated program
-text equals the reference text kept in the proof file; otherwise it is not claimed and the exact evaluation decides.
+For LEVINSON, CORRELATION, levup, levdown, HERMTOEP, TOEPLITZ, arburg, minvar_psi and aryule the equality `run program args = model` is in addition a
+THEOREM for all inputs (coq/Proofs/LoopIR<Name>.v, table THEOREMS below): it is instantiated in the generated file whenever the regenerated program
+text equals the reference text kept in the proof file; otherwise the obligations are recorded as broken and the exact evaluation looks for a failing input.
+
+T6: the thin wrappers aryule, ma, ac2poly, ac2rc, poly2ac, poly2rc, ar2rc, rc2poly, rc2ac are translated too.  Their calls of LEVINSON, CORRELATION,
+rlevinson, levup, aryule, rc2poly - functions of OTHER modules of the package - are resolved syntactically through the module's imports
+(`from .levinson import LEVINSON, rlevinson`, `from spectrum.correlation import CORRELATION`, `import spectrum.yulewalker as yulewalker` +
+`yulewalker.aryule(...)`, a `from .levinson import levup` at the head of a function body; anything else is refused), the callee is translated from ITS
+module text and embedded (SCall / SCall1); keyword and omitted arguments are positions of the callee's parameter list; the hidden oracle parameters of a
+callee become hidden parameters of the caller.  Comparators: coq/Model/LoopIRWrap.v; theorem for aryule: coq/Proofs/LoopIRAryule.v.
 
 The translator is fail-closed: an `ast` node outside the recognised subset aborts the translation of that function
 (`Untranslatable`), which the tie reports through ctx.broken as "translation of <fn> failed: <node>".  Nothing is
@@ -2998,6 +3005,84 @@ Print Assumptions loopir_aryule_tie.
 THEOREMS['aryule'] = dict(proof=ARYULE_PROOF, theorems=ARYULE_THEOREMS, block=ARYULE_BLOCK)
 
 
+# ---------------------------------------------------------------- ma: aryule_ir_run composed with itself (T6)
+MA_PROOF = 'Proofs/LoopIRMa.v'
+MA_THEOREMS = ['loopir_ma_model', 'loopir_ma_complex', 'loopir_ma_tie']
+MA_BLOCK = """
+(* The program of ma regenerated on this run - with aryule (and inside it CORRELATION, LEVINSON) embedded twice - is, term for term, the one
+   Proofs/LoopIRMa.v is about: its theorems apply. *)
+Require Import Spectrum.Theory.Ops Spectrum.Theory.Vec Spectrum.Model.Levinson Spectrum.Model.Corr Spectrum.Model.Yule Spectrum.Model.MaEst
+               Spectrum.Model.LoopIRTie Spectrum.Model.LoopIRWrap Spectrum.Proofs.LoopIRAryule Spectrum.Proofs.LoopIRMa.
+Lemma prog_ma_is_ref : prog_ma = prog_ma_ref.
+Proof. reflexivity. Qed.
+(* both dtype tags ([negb c]), ANY X, ANY integers Q, M, any oracle values *)
+Theorem loopir_ma_model :
+  forall (F : Type) (OF : Ops F) (L : Laws OF) (feq : F -> F -> bool) (stop : Z -> F -> F -> bool)
+         (c : bool) (x : list F) (Q M : Z) (o1 o2 o3 o4 : F),
+  run feq stop prog_ma [Some (VArr (negb c) x); Some (VI Q); Some (VI M); Some (VF o1); Some (VF o2); Some (VF o3); Some (VF o4)] =
+  if ((Q <=? 0) || (M <=? Q))%Z then OErr ValueError
+  else ma_outcome (negb c) (gma c (o1 * o2)%F (o3 * o4)%F x (Z.to_nat Q) (Z.to_nat M)).
+Proof. intros. rewrite prog_ma_is_ref. exact (ma_ir_run feq stop c x Q M o1 o2 o3 o4). Qed.
+(* complex dtype: the hand-written model Model.MaEst.ma_est itself *)
+Theorem loopir_ma_complex :
+  forall (F : Type) (OF : Ops F) (L : Laws OF) (feq : F -> F -> bool) (stop : Z -> F -> F -> bool)
+         (x : list F) (Q M : Z) (o1 o2 o3 o4 : F),
+  run feq stop prog_ma [Some (VArr false x); Some (VI Q); Some (VI M); Some (VF o1); Some (VF o2); Some (VF o3); Some (VF o4)] =
+  if ((Q <=? 0) || (M <=? Q))%Z then OErr ValueError
+  else match ma_est x (Z.to_nat Q) (Z.to_nat M) with
+       | inr (b, rho) => ORet [VArr false b; VF rho]
+       | inl MaValue => OErr ValueError
+       | inl MaAssert => OErr AssertionError
+       | inl MaSingular => OErr ValueError
+       end.
+Proof. intros. rewrite prog_ma_is_ref. exact (ma_ir_complex feq stop x Q M o1 o2 o3 o4). Qed.
+Theorem loopir_ma_tie :
+  forall (F : Type) (OF : Ops F) (L : Laws OF) (feq : F -> F -> bool), (forall a, feq a a = true) ->
+  forall (x : list F) (Q M : Z) (o1 o2 o3 o4 : F), tie_ma feq prog_ma false x Q M o1 o2 o3 o4 = true.
+Proof. intros. rewrite prog_ma_is_ref. apply ma_ir_tie; assumption. Qed.
+Print Assumptions loopir_ma_model.
+Print Assumptions loopir_ma_complex.
+Print Assumptions loopir_ma_tie.
+"""
+THEOREMS['ma'] = dict(proof=MA_PROOF, theorems=MA_THEOREMS, block=MA_BLOCK)
+
+
+# ---------------------------------------------------------------- ac2poly, ac2rc: levinson_ir_run through the call (T6)
+AC2_PROOF = 'Proofs/LoopIRAc2.v'
+
+
+def ac2_block(nm, ret):
+    return """
+(* The program of %(nm)s regenerated on this run - with LEVINSON embedded - is, term for term, the one Proofs/LoopIRAc2.v is about. *)
+Require Import Spectrum.Theory.Ops Spectrum.Theory.Vec Spectrum.Model.Levinson Spectrum.Model.LinPred Spectrum.Model.LoopIRTie Spectrum.Model.LoopIRWrap
+               Spectrum.Proofs.LoopIRLevinson Spectrum.Proofs.LoopIRAc2.
+Lemma prog_%(nm)s_is_ref : prog_%(nm)s = prog_%(nm)s_ref.
+Proof. reflexivity. Qed.
+Theorem loopir_%(nm)s_complex :
+  forall (F : Type) (OF : Ops F) (L : Laws OF) (feq : F -> F -> bool) (stop : Z -> F -> F -> bool) (r : list F), r <> [] ->
+  run feq stop prog_%(nm)s [Some (VArr false r)] =
+  match %(nm)s r with Some (a, e) => ORet [VArr false a; VF e] | None => OErr ValueError end.
+Proof. intros. rewrite prog_%(nm)s_is_ref. apply %(nm)s_ir_complex; assumption. Qed.
+Theorem loopir_%(nm)s_real :
+  forall (F : Type) (OF : Ops F) (L : Laws OF) (feq : F -> F -> bool) (stop : Z -> F -> F -> bool) (r : list F), r <> [] ->
+  (forall j, conj (nthF r j) = nthF r j) -> le0 (re (nthF r 0)) = false ->
+  run feq stop prog_%(nm)s [Some (VArr true r)] =
+  match %(nm)s r with Some (a, e) => ORet [VArr true a; VF e] | None => OErr ValueError end.
+Proof. intros. rewrite prog_%(nm)s_is_ref. apply %(nm)s_ir_real; assumption. Qed.
+Theorem loopir_%(nm)s_tie :
+  forall (F : Type) (OF : Ops F) (L : Laws OF) (feq : F -> F -> bool), (forall a, feq a a = true) ->
+  forall (r : list F), r <> [] -> tie_%(nm)s feq prog_%(nm)s false r = true.
+Proof. intros. rewrite prog_%(nm)s_is_ref. apply %(nm)s_ir_tie; assumption. Qed.
+Print Assumptions loopir_%(nm)s_complex.
+Print Assumptions loopir_%(nm)s_real.
+Print Assumptions loopir_%(nm)s_tie.
+""" % dict(nm=nm)
+
+
+for _nm in ('ac2poly', 'ac2rc'):
+    THEOREMS[_nm] = dict(proof=AC2_PROOF, theorems=['loopir_%s_complex' % _nm, 'loopir_%s_real' % _nm, 'loopir_%s_tie' % _nm], block=ac2_block(_nm, None))
+
+
 def reference_text_in(proof, name):
     """the program text of <name> that <proof> was proved about (between its BEGIN/END GENERATED <name> markers)"""
     t = open(os.path.join(vlib.COQ, proof)).read()
@@ -3008,7 +3093,8 @@ def reference_text_in(proof, name):
 TRUSTED_LINE = ("loop-IR tie: the translator tools/props/_loopir.py (Python ast -> IR, fail-closed) and the IR interpreter coq/Model/LoopIR.v "
                 "(semantics of the accepted Python/numpy fragment; arrays by value, no rounding) are trusted; the IR program is regenerated from the "
                 "snapshot source on every run and evaluated exactly (QcC, zero tolerance) against the hand-written model; for LEVINSON, CORRELATION, "
-                "levup, levdown, HERMTOEP, TOEPLITZ, arburg (with and without an order-selection criterion) and the psi loop of minvar `run program = model` is moreover a theorem (for rlevinson and the two Marple recursions: argument checks and orders 0/1) for all inputs (Proofs/LoopIR*.v), "
+                "levup, levdown, HERMTOEP, TOEPLITZ, arburg (with and without an order-selection criterion), the psi loop of minvar and - by composition of the CORRELATION and LEVINSON theorems through the call semantics - the wrapper aryule `run program = model` is moreover a theorem (for rlevinson and the two Marple recursions: argument checks and orders 0/1) for all inputs (Proofs/LoopIR*.v), "
+                "the wrappers ma, ac2poly, ac2rc, poly2ac, poly2rc, ar2rc, rc2poly, rc2ac are translated with their callees (functions of other modules of the package, imports resolved syntactically, fail-closed) embedded and evaluated exactly on sampled inputs, "
                 "claimed only while the regenerated program text is the one the proof is about (compared on every run, reflexivity inside Coq)")
 
 
